@@ -244,6 +244,14 @@ InstC04(h) ==
     IF ~IsAlign(h[r]) THEN {} ELSE
     {Inst("SubAlign", r, [start |-> s, len |-> n]) : s \in Ints(h[r]), n \in Ints(h[r])}
     \cup {Inst("InverseCoordinates", r, [start |-> s, len |-> n]) : s \in Ints(h[r]), n \in Ints(h[r])}
+    \* one region of one or two blocks (any order, overlapping, empty, out of range), either strand, translated or not
+    \cup {Inst("Extract", r, [blocks |-> bs, minus |-> m, code |-> c, ref |-> <<>>]) :
+             bs \in {<<[s |-> s1, e |-> e1]>> : s1 \in {-1, 0, 1}, e1 \in {1, L(h[r]), L(h[r]) + 1}}
+                    \cup {<<[s |-> 1, e |-> L(h[r])], [s |-> 0, e |-> 2]>>, <<[s |-> 0, e |-> 1], [s |-> 0, e |-> 1]>>,
+                           <<[s |-> L(h[r]) - 1, e |-> L(h[r])], [s |-> 0, e |-> 0]>>},
+             m \in Bools, c \in {-1, 0}}
+    \cup {Inst("Extract", r, [blocks |-> <<[s |-> s1, e |-> e1]>>, minus |-> FALSE, code |-> -1, ref |-> n]) :
+             n \in {nA, nZ}, s1 \in {0, 1}, e1 \in {1, 2, L(h[r])}}
     \cup {Inst("SelectSites", r, [sites |-> ss]) : ss \in SeqsUpTo((-1)..L(h[r]), 2) \cup {<<0, 0, 0>>}}
     \cup {Inst("InversePositions", r, [sites |-> ss]) : ss \in SeqsUpTo((-1)..L(h[r]), 2)}
     \cup {Inst("TrimSequences", r, [n |-> n, fromstart |-> b]) : n \in Ints(h[r]), b \in Bools}
